@@ -659,6 +659,10 @@ func (h *hist) clientFetch(present bool) {
 	} else {
 		ref = h.pickAbsent()
 	}
+	h.clientFetchRef(ref, present)
+}
+
+func (h *hist) clientFetchRef(ref string, present bool) {
 	cls := "absent"
 	if present {
 		cls = "present"
@@ -820,6 +824,11 @@ func (h *hist) rawRange(method, class string) {
 	if ref == "" {
 		return
 	}
+	h.rawRangeRef(method, class, ref)
+}
+
+// rawRangeRef sends one Range request of the class for a present, non-empty blob.
+func (h *hist) rawRangeRef(method, class, ref string) {
 	n := h.present[ref]
 	hdr, first, last, sat := h.rangeSpec(class, n)
 	h.begin("get", "raw", method+".range."+class, fmt.Sprintf("%s (%d B) Range: %s", ref, n, hdr))
@@ -1013,7 +1022,7 @@ const serverMaxEnumerate = 10000 // only used to pick a limit above it
 func (h *hist) pageReq(class string, allowAfter bool) (q enumReq, limit int) {
 	switch class {
 	case "absent":
-	case "1", "2", "100", "1000":
+	case "1", "2", "100", "1000", "10000", "10001", "20000", "100000", "4294967295":
 		q.Limit = class
 		limit, _ = strconv.Atoi(class)
 	case "over-max":
@@ -1188,8 +1197,9 @@ func limitClass(class string, q enumReq) string {
 }
 
 // rawChain follows continueAfter from the start to the end and checks that the union is
-// the model, every uploaded blob exactly once.
-func (h *hist) rawChain(class string) {
+// the model, every uploaded blob exactly once.  It returns the number of pages of a chain that
+// was followed to its end without a report (0 otherwise).
+func (h *hist) rawChain(class string) int {
 	q, limit := h.pageReq(class, false)
 	q.After = nil
 	h.begin("enumerate", "raw", "chain."+class, q.String())
@@ -1201,7 +1211,7 @@ func (h *hist) rawChain(class string) {
 		before := h.nbad
 		e := h.onePage(q, limit)
 		if e == nil || h.nbad > before {
-			return // already reported: the rest of the chain would only repeat it
+			return 0 // already reported: the rest of the chain would only repeat it
 		}
 		pages++
 		for _, sb := range e.Blobs {
@@ -1215,7 +1225,7 @@ func (h *hist) rawChain(class string) {
 		}
 		if pages > maxPages {
 			h.bad("enumerate/paging-endless", "chain with limit %q did not end after %d pages over %d blobs", q.Limit, pages, len(h.present))
-			return
+			return 0
 		}
 		a := e.ContinueAfter
 		q.After = &a
@@ -1232,12 +1242,13 @@ func (h *hist) rawChain(class string) {
 		switch n := visited[r]; {
 		case n == 0:
 			h.bad("enumerate/missing-uploaded", "complete enumeration (limit %q, %d pages) does not list uploaded blob %s", q.Limit, pages, r)
-			return
+			return 0
 		case n > 1:
 			h.bad("enumerate/dup", "complete enumeration (limit %q, %d pages) lists uploaded blob %s %d times", q.Limit, pages, r, n)
-			return
+			return 0
 		}
 	}
+	return pages
 }
 
 // ---------------------------------------------------------------- final audit
